@@ -172,7 +172,7 @@ class Small(Component):
     rule = "a profiled column with a duplicate or a missing value"
 
     def examples(self, tier):
-        return 120 if tier == "quick" else 1200
+        return 300 if tier == "quick" else 1200
 
     def strategy(self, tier):
         return small_case(tier)
